@@ -1851,42 +1851,14 @@ def skel_rules(repo, chk):
 
 
 def init_rules(repo, chk):
+    """R-C19-5 / -6 / -7 for _Skeletonize.__init__ (T3, bounded to one fixture model, both simulators): the constructor is run by the in-house interpreter on a mock
+    model with two controls (requiring two junctions, a pipe and a tank), a water-quality source, user exclusion lists and a stand-in simulator that records the
+    duration it is run with.  Afterwards: the junction / pipe exclusion lists are exactly the junctions / pipes required by a control + the user's + (junctions only)
+    the nodes a source sits on; the skeleton map is {n: [n]} for every node; the stored head loss of each link is |h_start - h_end| of the single-period run; the
+    internal run saw duration 0 and the model's duration is what it was."""
     skel_init = repo.func(SKEL, "_Skeletonize.__init__")
-
-    # exclusion lists (small dataflow: which names feed self.<list>)
-    def feeds(attr):
-        src = set()
-        found = False
-        for n in walk(skel_init):
-            if isinstance(n, ast.Assign) and unparse(n.targets[0]) == "self." + attr:
-                found = True
-                src |= {x.id for x in ast.walk(n.value) if isinstance(x, ast.Name)}
-            if isinstance(n, ast.Call) and isinstance(n.func, ast.Attribute) and n.func.attr in ("extend", "append", "update") and unparse(n.func.value) == "self." + attr:
-                found = True
-                for a in n.args:
-                    src |= {x.id for x in ast.walk(a) if isinstance(x, ast.Name)}
-            if isinstance(n, ast.AugAssign) and unparse(n.target) == "self." + attr:
-                found = True
-                src |= {x.id for x in ast.walk(n.value) if isinstance(x, ast.Name)}
-        if not found:
-            raise ExtractError("_Skeletonize.__init__: self.%s is never defined" % attr)
-        return src
-    ctl = [f for f in walk(skel_init) if isinstance(f, ast.For) and "controls()" in unparse(f.iter)]
-    if not ctl:
-        raise ExtractError("_Skeletonize.__init__: loop over the controls not found")
-    collectors = {}      # element class -> local list name collecting req.name
-    for g in walk(ctl[0]):
-        if isinstance(g, ast.If) and isinstance(g.test, ast.Call) and unparse(g.test.func) == "isinstance" and len(g.test.args) == 2:
-            for c in calls(ast.Module(body=g.body, type_ignores=[])):
-                if last_attr(c) in ("append", "add") and isinstance(c.func.value, ast.Name) and c.args and unparse(c.args[0]).endswith(".name"):
-                    collectors[unparse(g.test.args[1])] = c.func.value.id
-    chk.expect("requires()" in unparse(ctl[0]) and set(collectors) >= {"Junction", "Pipe"}, "R-C19-5", "every junction and pipe required by a control is collected for exclusion", loc(skel_init),
-               found=collectors)
-    for attr, cls, user in (("junc_to_exclude", "Junction", "junctions_to_exclude"), ("pipe_to_exclude", "Pipe", "pipes_to_exclude")):
-        f = feeds(attr)
-        chk.expect(collectors.get(cls) in f and user in f, "R-C19-5", "self.%s = elements of class %s required by controls + the user's list" % (attr, cls), loc(skel_init),
-                   "an element referenced by a control (or named by the user) must never be removed", expected=[collectors.get(cls), user], found=sorted(f))
-    # anything else that makes NodeRegistry refuse the removal of a junction whose links are gone: non-link users of the node registry
+    chk.fn(skel_init)
+    # which non-link users of the node registry exist (they make remove_node refuse): the fixture must contain one of each
     from .c14 import usage_sites
     node_users = set()
     for rel_ in ("wntr/network/elements.py", "wntr/network/model.py", "wntr/network/base.py"):
@@ -1895,49 +1867,92 @@ def init_rules(repo, chk):
                 if op == "add_usage" and reg == "_node_reg" and tag and tag.startswith("'"):
                     node_users.add(tag.strip("'"))
     chk.sample({"rule": "R-C19-5", "non_link_users_of_nodes": sorted(node_users)})
-    txt_feed = " ".join(unparse(n) for n in walk(skel_init) if isinstance(n, ast.Call) and isinstance(n.func, ast.Attribute) and n.func.attr in ("extend", "append")
-                        and unparse(n.func.value) == "self.junc_to_exclude")
-    for u in sorted(node_users):
-        acc = {"Source": "sources()"}.get(u)
-        chk.expect(acc is not None and acc in txt_feed, "R-C19-5", "junctions used by a %s are excluded from removal" % u, loc(skel_init),
-                   "remove_node(force=True) only skips the control check: the registry still refuses a node with a usage record, after demands and pipes were already moved "
-                   "(skeletonize of Net2 fails half way with RuntimeError)", expected="junc_to_exclude fed from self.wn.%s" % (acc or "?"), found=txt_feed[:200])
+    if node_users - {"Source"}:
+        raise ExtractError("_Skeletonize.__init__: the node registry has users %s the fixture of R-C19-5 does not contain" % sorted(node_users - {"Source"}))
+    from ..concrete import World, stdlib_overrides, Namespace, ProgramError, Instance, ClassRef
+    ELEM_ = "wntr/network/elements.py"
 
-    # R-C19-6 the initial map: on every path the value stored in self.skeleton_map is {n: [n]} built in one pass over all node names (loop or comprehension)
-    ex = SX()
-    outs = [o for o in ex.run(skel_init) if o.raised is None]
-    okm, found = bool(outs), None
-    for o in outs:
-        st_ = [e for e in o.events if e[0] == "store" and e[1] == "self.skeleton_map"]
-        v = st_[-1][2] if st_ else None
-        good = False
-        if isinstance(v, dict) and len(v) == 1:
-            (k, val), = v.items()
-            if isinstance(val, (list, tuple)) and len(val) == 1 and isinstance(val[0], Opaque) and val[0].text == k:
-                for e in o.events:
-                    if e[0] != "loop":
-                        continue
-                    tg, it = e[1], e[2]
-                    names_it = it in ("self.wn.node_name_list", "self.wn.nodes", "self.wn.nodes.keys()", "list(self.wn.node_name_list)", "self.wn._node_reg", "self.wn._node_reg.keys()")
-                    pairs_it = it in ("self.wn.nodes()", "self.wn.nodes.items()", "self.wn._node_reg.items()")
-                    if (names_it and tg == k) or (pairs_it and re_first(tg) == k):
-                        good = True
-        if not good:
-            okm, found = False, "%s on path %s" % (ex.text(v) if v is not None else None, o.label()[:200])
-    chk.expect(okm, "R-C19-6", "the initial skeleton map is {n: [n]} for every node", loc(skel_init), expected="{n: [n]} for n in self.wn.node_name_list", found=found)
+    class Rec(object):
+        _sa_mock = True
+        _sa_foreign = True
 
-    # R-C19-7 duration restored (top-level statements of __init__, in order)
-    body = list(skel_init.body)
-    sv = [i for i, a in enumerate(body) if isinstance(a, ast.Assign) and unparse(a.value) == "self.wn.options.time.duration" and isinstance(a.targets[0], ast.Name)]
-    st = [i for i, a in enumerate(body) if isinstance(a, ast.Assign) and unparse(a.targets[0]) == "self.wn.options.time.duration"]
-    run_ = [i for i, a in enumerate(body) if any(last_attr(c) == "run_sim" for c in calls(a))]
-    okd = len(sv) == 1 and len(st) == 2 and const(body[st[0]].value) == 0 and unparse(body[st[1]].value) == unparse(body[sv[0]].targets[0]) and sv[0] < st[0] < st[1]
-    okd = okd and bool(run_) and st[0] < run_[0] < st[1]
-    if okd:
-        saved = unparse(body[sv[0]].targets[0])
-        okd = not any(isinstance(x, ast.Name) and x.id == saved and isinstance(x.ctx, ast.Store) for a in body[sv[0] + 1:st[1]] for x in ast.walk(a))
-    chk.expect(okd, "R-C19-7", "_Skeletonize.__init__ saves the duration, sets 0 for the internal simulation and restores it afterwards (top-level statements)", loc(skel_init),
-               found=[norm(body[i]) for i in sv + st])
+        def __init__(self, label, **kw):
+            self._label = label
+            self.__dict__.update(kw)
+
+        def __repr__(self):
+            return "<%s>" % self._label
+    for use_epanet in (False, True):
+        ov, _st = stdlib_overrides()
+        ov["six"] = Namespace("six", with_metaclass=lambda meta, *bases: (bases[0] if bases else object), string_types=(str,), integer_types=(int,))
+        seen_durations = []
+        heads = {"J1": 50.0, "J2": 47.5, "J3": 61.25, "J9": 40.0, "T1": 70.0, "R1": 80.0}
+
+        class Loc(object):
+            _sa_mock = True
+
+            def __getitem__(self, key):
+                if not (isinstance(key, tuple) and len(key) == 2 and key[0] == 0):
+                    raise KeyError(key)
+                return heads[key[1]]
+        options = Rec("options", time=Rec("time options", duration=86400))
+        links = [("P1", Rec("P1", start_node_name="J1", end_node_name="J2")), ("P9", Rec("P9", start_node_name="R1", end_node_name="J9")), ("P3", Rec("P3", start_node_name="J3", end_node_name="T1"))]
+
+        def make_sim(kind):
+            def ctor(wn_):
+                def run_sim(*a, **k):
+                    seen_durations.append((kind, wn_.options.time.duration))
+                    return Rec("results", node={"head": Rec("head table", loc=Loc())})
+                return Rec("%s simulator" % kind, run_sim=run_sim)
+            return ctor
+        for key in ("wntr.sim.core.WNTRSimulator", "wntr.morph.skel.WNTRSimulator"):
+            ov[key] = make_sim("WNTR")
+        for key in ("wntr.sim.EpanetSimulator", "wntr.morph.skel.EpanetSimulator", "wntr.sim.epanet.EpanetSimulator"):
+            ov[key] = make_sim("EPANET")
+        ov["networkx"] = Namespace("networkx")
+        world = World(repo, ov, fuel=5000000)
+        I = world.interp
+        J, P, T = (world.function(ELEM_, n_) for n_ in ("Junction", "Pipe", "Tank"))
+        if not all(isinstance(c_, ClassRef) for c_ in (J, P, T)):
+            raise AnchorError("Junction / Pipe / Tank are not classes of %s" % ELEM_)
+
+        def elem(cls_, name):
+            o = Instance(cls_)
+            o._attrs["_name"] = name
+            if cls_ is P:
+                o._attrs["_link_name"] = name
+            return o
+        j1, j2, p1, t1 = elem(J, "J1"), elem(J, "J2"), elem(P, "P1"), elem(T, "T1")
+        controls = [("c1", Rec("c1", requires=lambda: [j1, p1, t1])), ("c2", Rec("c2", requires=lambda: [j2, j1]))]
+        sources = [("S1", Rec("S1", node_name="J3"))]
+        G = Rec("graph")
+        G.to_undirected = lambda: G
+        wn = Rec("model", to_graph=lambda: G, node_name_list=["J1", "J2", "J3", "J9", "T1", "R1"], controls=lambda: list(controls), sources=lambda: list(sources),
+                 links=lambda: list(links), options=options, junction_name_list=["J1", "J2", "J3", "J9"], tank_name_list=["T1"], reservoir_name_list=["R1"],
+                 link_name_list=[l_[0] for l_ in links], pipe_name_list=[l_[0] for l_ in links], pipes=lambda: list(links))
+        cls_sk = world.function(SKEL, "_Skeletonize")
+        me = Instance(cls_sk)
+        try:
+            I.call(I.getattr_(me, "__init__"), [wn, use_epanet, False, ["P9"], ["J9"]], {})
+        except ProgramError as e:
+            if isinstance(e.exc, (AttributeError, NameError)):
+                raise ExtractError("_Skeletonize.__init__ needs something the mock model does not provide: %s (line %s)" % (e, e.lineno))
+            chk.bad("R-C19-5", "_Skeletonize.__init__ completes on a model with controls and a source", loc(skel_init), found="%s (line %s)" % (e, e.lineno))
+            continue
+        tag = "EpanetSimulator" if use_epanet else "WNTRSimulator"
+        je, pe = me._attrs.get("junc_to_exclude"), me._attrs.get("pipe_to_exclude")
+        chk.expect(isinstance(je, list) and sorted(set(je)) == ["J1", "J2", "J3", "J9"], "R-C19-5", "junctions required by a control, named by the user or carrying a source are excluded from removal [%s]" % tag, loc(skel_init),
+                   "an element referenced by a control (or named by the user) must never be removed; remove_node(force=True) only skips the control check: the registry still refuses a node "
+                   "a source uses, after demands and pipes were already moved", expected=["J1", "J2", "J3", "J9"], found=je)
+        chk.expect(isinstance(pe, list) and sorted(set(pe)) == ["P1", "P9"], "R-C19-5", "pipes required by a control or named by the user are excluded from removal [%s]" % tag, loc(skel_init), expected=["P1", "P9"], found=pe)
+        sm = me._attrs.get("skeleton_map")
+        chk.expect(sm == {n_: [n_] for n_ in wn.node_name_list}, "R-C19-6", "the initial skeleton map is {n: [n]} for every node [%s]" % tag, loc(skel_init), found=sm)
+        hl = me._attrs.get("headloss")
+        want_hl = {nm: abs(heads[l_.start_node_name] - heads[l_.end_node_name]) for nm, l_ in links}
+        chk.expect(hl == want_hl, "R-C19-6", "the stored head loss of every link is |h_start - h_end| of the single-period run [%s]" % tag, loc(skel_init), expected=want_hl, found=hl)
+        chk.expect(seen_durations == [("EPANET" if use_epanet else "WNTR", 0)] and options.time.duration == 86400, "R-C19-7",
+                   "_Skeletonize.__init__ runs the chosen simulator once with duration 0 and restores the model's duration afterwards [%s]" % tag, loc(skel_init),
+                   expected="one run with duration 0, duration 86400 afterwards", found="runs %s, duration afterwards %r" % (seen_durations, options.time.duration))
 
 
 def re_first(tgt):
